@@ -72,22 +72,7 @@ func Check(before *world.World, _ world.Event, pass *world.Pass, after *world.Wo
 	}
 	phases := osw.SpecPhases(osObj.Content, osKey.Namespace)
 	v := osw.View{Before: before.S, Pass: pass}
-	// an ObjectSet without availability probes selects nothing: present objects pass
-	pr, _ := world.Nested(osObj.Content, "spec", "availabilityProbes")
-	prl, _ := pr.([]any)
-	probe := osw.RefProbe
-	if len(prl) == 0 {
-		probe = func(map[string]any) bool { return true }
-	} else if strings.Contains(kmodel.Digest(map[string]any{"p": pr}), "self.status.conditions.exists") {
-		// world.CELProbes: a Widget needs a Ready=True condition, nothing selects other kinds
-		probe = func(c map[string]any) bool {
-			if k, _ := c["kind"].(string); k != "Widget" {
-				return true
-			}
-			st, _, _, ok := world.Condition(c, "Ready")
-			return ok && st == "True"
-		}
-	}
+	probe := osw.ProbeFor(osObj.Content)
 	var out []world.Finding
 	bad := func(id, f string, a ...any) {
 		out = append(out, world.Finding{Monitor: "phase-order", Identity: id, Message: fmt.Sprintf(f, a...)})
